@@ -66,8 +66,23 @@ def specs(ctx, n):
         elif r2 < 0.45:
             calls[0]["max_score"] = 1e12
             calls[0]["early_stopping"] = {"n_iter_no_change": n_iter + 3}
-        out.append(dict(name=name, space=space, table=table, durations=durs, calls=calls, seed=rng.randrange(10 ** 6),
-                        init=gen.gen_initialize(rng, space), read_cost=rng.choice([0, 0, 1]), scalar="float"))
+        spec = dict(name=name, space=space, table=table, durations=durs, calls=calls, seed=rng.randrange(10 ** 6),
+                    init=gen.gen_initialize(rng, space), read_cost=rng.choice([0, 0, 1]), scalar="float")
+        if rng.random() < 0.3 and "early_stopping" not in calls[0]:
+            # the evaluation during which the budget runs out (and sometimes the next ones) returns NaN / +-inf: the deadline is about time
+            cum, kx = 0, None
+            for j_, d_ in enumerate(durs):
+                cum += d_
+                if cum > T:
+                    kx = j_
+                    break
+            script = [(float(rng.choice([-2, -1, 0, 1, 3])), None) for _ in range(n_iter)]
+            bad = rng.choice([math.nan, math.nan, math.inf, -math.inf])
+            for j_ in ([kx, kx + 1, kx + 2][:rng.choice([1, 2, 3])] if kx is not None else [rng.randrange(n_iter)]):
+                if j_ < n_iter:
+                    script[j_] = (bad, None)
+            spec["script"] = script
+        out.append(spec)
     return out
 
 
